@@ -238,7 +238,7 @@ Definition apply_eff (c : cfg) (w : who) (s : state) (e : effect) : state :=
       let '(s1, b) := get_bp s broker in
       set_bps s1 (bp_upd b (fun x => bi_with_bridge x (i_bridge x ++ [st]) (i_infl x) (i_resp x)) (g_bps s1))
   | ENote _ _ => s
-  | ECrash code => set_panic s code
+  | ECrash code => set_panic s (100 + Z.abs code)    (* labels of other run-time panics live above 100: never PANIC_CLOSED_CHANNEL *)
   end.
 
 Definition apply_effs (c : cfg) (w : who) (s : state) (l : list effect) : state := fold_left (apply_eff c w) l s.
@@ -323,10 +323,8 @@ Definition raw_step (c : cfg) (s : state) (ch : choice) : state :=
               let '(st0, effs0) := pp_init c t p l0 in
               let s2 := set_pps s1 (pp_set (t, p) (mkPpr st0 None) (g_pps s1)) in
               let s3 := apply_effs c (WPp (t, p)) s2 effs0 in
-              match pp_get (t, p) (g_pps s3) with
-              | Some x => run_pp c s3 (t, p) x m ls'
-              | None => s3
-              end
+              let x := match pp_get (t, p) (g_pps s3) with Some x => x | None => mkPpr st0 None end in
+              run_pp c s3 (t, p) x m ls'
           end
       | None => s
       end
